@@ -31,7 +31,7 @@ EXPLANATION = (
     "value_to_literal: every provided field of an input object (None included) gets an entry in "
     "the literal; only Undefined ones are left out (per-iteration contract of the field loop).")
 UNVERIFIED = [
-    "the input-object branch of the value pair beyond the decisions listed (unknown fields, OneOf, Valid/Conf for input objects); termination of the recursion through recursive input objects",
+    "the input-object branch of the value pair beyond the decisions listed (unknown fields, OneOf, Valid/Conf for input objects): BOUNDED stand-in props/C15_ref.py (the agreement statements over a pool of values, literals and types); termination of the recursion through recursive input objects",
     "purity of coerce_input_literal / coerce_input_value (assumed in the memo proof of coerce_default_value)",
     "coerce_variable_values (assumed: only the callback's GraphQLError leaves it)",
     "full agreement (iff) of the literal pair beyond the listed decisions; ValuesOfCorrectTypeRule",
@@ -181,6 +181,31 @@ for lit in ['{a: 1, a: 2}', '{a: null, a: 1}', '{a: 1}', '{a: 1, b: 2}', '{}']:
     assert (coerce_input_literal(parse_value(lit), O) is Undefined) == bool(errs), lit
 ''',
 }
+
+
+def bounded_checks(tier, seed):
+    """For input objects the contracts decide the frame, the call operands and the required-field
+    decisions only; the agreement statements themselves (value coercion <=> value validation, an
+    accepted value has a literal that coerces back to the same result, literal coercion <=> literal
+    validation) are run over a pool of values, literals and types - BOUNDED (props/C15_ref.py)."""
+    import json
+    from .common import run_native
+    code = ("import json\nfrom props.C15_ref import search\n"
+            "r = search()\nprint('BOUNDED ' + json.dumps(r, default=str))")
+    rc, outp = run_native(code, timeout=900)
+    res, ok = None, False
+    for line in outp.splitlines():
+        if line.startswith("BOUNDED "):
+            res, ok = json.loads(line[8:]), True
+    if not ok:
+        raise RuntimeError(outp[-600:])
+    return [{"id": "C15/bounded/agreement-over-a-value-and-literal-pool",
+             "function": "coerce_input_value / validate_input_value / value_to_literal / coerce_input_literal / validate_input_literal",
+             "tool": "the agreement statements of C15 over a pool, native",
+             "bound": "12 types over one schema (required fields, defaults, nested, recursive, OneOf, enums, lists) x 317 values "
+                      "(scalars incl. falsy ones, None, Undefined, dicts with Undefined members, unknown and non-string keys) "
+                      "and 38 literals",
+             "failed": res is not None, "input": res, "output": outp[-1000:]}]
 
 
 def native_checks(tier, seed):
